@@ -206,19 +206,22 @@ def run_executor(exe, driver, scen, trace, shards=NCPU, timeout_s=60, wall=3000,
     lines = open(scen).read().splitlines()
     lines = [l for l in lines if l.strip()]
     shards = max(1, min(shards, len(lines)))
-    per = (len(lines) + shards - 1) // shards
     parts = []
-    sc = 0
+    # scenarios are numbered in the order of the file and dealt out to the shards in turn (neighbours in an enumeration cost
+    # about the same: contiguous chunks left most shards idle while one or two worked through the expensive stretch)
+    numbered = []
+    for sc, l in enumerate(lines, 1):
+        if l.startswith("{") and '"sc":' not in l[:12]:
+            l = '{"sc":%d,' % sc + l[1:]
+        numbered.append(l)
+    sc = len(lines)
     for k in range(shards):
-        chunk = lines[k * per:(k + 1) * per]
+        chunk = numbered[k::shards]
         if not chunk:
             continue
         sp = "%s.part%d" % (scen, k)
         with open(sp, "w") as f:
             for l in chunk:
-                sc += 1
-                if l.startswith("{") and '"sc":' not in l[:12]:
-                    l = '{"sc":%d,' % sc + l[1:]
                 f.write(l + "\n")
         parts.append((sp, "%s.part%d" % (trace, k)))
 
@@ -243,12 +246,12 @@ def run_executor(exe, driver, scen, trace, shards=NCPU, timeout_s=60, wall=3000,
                 with open(trace + ".stderr", "a") as e, open(tp + ".stderr") as f:
                     shutil.copyfileobj(f, e)
                 os.remove(tp + ".stderr")
-    # renumbered scenario file (what the replay path points at)
+    # numbered scenario file (what the replay path points at)
     with open(scen + ".numbered", "w") as out:
-        for sp, tp in parts:
-            with open(sp) as f:
-                shutil.copyfileobj(f, out)
-            os.remove(sp)
+        for l in numbered:
+            out.write(l + "\n")
+    for sp, tp in parts:
+        os.remove(sp)
     return sc
 
 
